@@ -352,7 +352,7 @@ def write_evidence(mod, tier, seed, agg, nshards, done, capped, cap, wall, nfres
     level = mod.LEVEL
     cov = dict(
         evaluations=agg.evaluations,
-        distinct_nontrivial=agg.nontrivial,
+        distinct_nontrivial=(len(agg.states) if (level == 'model_checking' and agg.states) else agg.nontrivial),
         rule=mod.RULE,
         samples=agg.samples[:6] or ["(no sample recorded)"],
         exhaustive=(not capped and done == nshards),
